@@ -10,7 +10,7 @@ The model mirrors the NumPy-backend execution of
 * `cond_fun` (`any` column above its tolerance `&` `k < max_iters`),
 * `take_cg_step` / `update_alpha` / `update_gamma_beta` (the `has_converged` mask with
   `eps = 1e-40` that sets alpha and beta to 0, the guarded divisions),
-* `do_safe_div` (`|denom| < 1e-40 ⇒ denom := 1e-40`),
+* `do_safe_div` (`denom == 0 ⇒ denom := 1e-40`; an exact zero test since the repair 1a4d949),
 * `while_loop_winfo` (`iterations` = number of evaluations of the stopping test; `errors` = tracked
   residual at every evaluation plus the final one, first two dropped).
 
@@ -78,9 +78,10 @@ def applyP : Option (Mat K) → Vec K → Vec K
   | none, v => v
   | some P, v => matVec P v
 
-/-- `do_safe_div` on one entry -/
+/-- `do_safe_div` on one entry: an EXACT zero test (`denom == 0`, repaired code) — only a denominator
+that is exactly zero is replaced by `_small_value` -/
 def safeDiv (num den : K) : K :=
-  div num (if lt (abs den) small then small else den)
+  div num (if isZero den then small else den)
 
 /-- `v / s` with `s` the column's entry of a `1 × m` row -/
 def vdiv (v : Vec K) (s : K) : Vec K := v.map (fun t => div t s)
